@@ -95,6 +95,11 @@ func genHistory(r *rand.Rand, maxLen int, k histKinds) []core.Op {
 	ops := make([]core.Op, n)
 	for i := range ops {
 		ops[i] = genOp(r, k)
+		// the SAME text handed to another operation right after (a rejected value, then the same value where it is
+		// acceptable; state keyed by the argument text that outlives the call)
+		if i > 0 && len(ops[i].Args) == 1 && len(ops[i-1].Args) == 1 && r.IntN(10) == 0 {
+			ops[i].Args = ops[i-1].Args
+		}
 	}
 	return ops
 }
